@@ -9,7 +9,10 @@ class C32(Spec):
                          "C32.accepted_contiguous_partial", "C32.delivered_contiguous_partial",
                          "C32.delivered_dense_partial", "C32.delivered_from_resume_partial", "C32.delivered_full_false",
                          "C32.persisted_only_after_ack", "C32.pending_only_from_ack", "C32.step_persisted_shape",
-                         "C32.accepted_three_strikes", "C32.run_three_strikes")
+                         "C32.accepted_three_strikes", "C32.run_three_strikes",
+                         "C32.batch_delivers_every_matching_block", "C32.batch_progress", "C32.batch_first_match_sent",
+                         "C32.oversize_first_block_is_posted", "C32.new_size_rule_never_stalls",
+                         "C32.old_size_rule_drops_exact_fit", "C32.old_size_rule_stalls_on_oversize")
     # hypotheses: strict acceptance / noLoss = no store failure and no crash between PostData (ack) and
     # setLastPushSeq (record); dense = no range without matching data (see level_note)
     partial = ("C32.accepted_contiguous_partial", "C32.delivered_contiguous_partial", "C32.delivered_dense_partial",
@@ -17,7 +20,7 @@ class C32(Spec):
     refuted = ("C32.delivered_full_false",)
     level_text = ("Two-layer Lean proof: the task loop of blockchain/push.go (notification consumption with back-off, "
                   "post acknowledged / refused, ranges WITHOUT matching data of the contract-filter subscriptions "
-                  "(in-memory cursor advance without record), the oversize-first-block stall, record written / store "
+                  "(in-memory cursor advance without record), record written / store "
                   "error ignored / crash between acknowledgement and record, deactivation after three failures, "
                   "re-registration, node restart) as a transition function over ANY fault history refines a "
                   "specification acceptor written from the property text (run_refines_spec; run_refines_strict for "
@@ -29,10 +32,17 @@ class C32(Spec):
                   "refused posts are followed by the deactivation before any further post, in whole runs "
                   "(accepted_three_strikes, run_three_strikes); acknowledged ranges strictly increasing — and gap-free "
                   "for dense subscriptions — from the resume point when no record is lost (…_partial); the full "
-                  "statement over histories with lost records is refuted (delivered_full_false). Tie: trace "
+                  "statement over histories with lost records is refuted (delivered_full_false). The batch loop of "
+                  "getTxReceipts/getEVMEvent after fix 87f57a6 (batchNew): the payload holds exactly the matching blocks "
+                  "of the range gone over, the first matching block is sent whatever its size, a non-empty range is "
+                  "always advanced over, so an oversize first block is posted and the task never stalls "
+                  "(batch_delivers_every_matching_block, batch_first_match_sent, batch_progress, "
+                  "oversize_first_block_is_posted, new_size_rule_never_stalls); the loop before the fix (batchOld) is kept "
+                  "as regression witnesses (old_size_rule_drops_exact_fit, old_size_rule_stalls_on_oversize). Tie: trace "
                   "validation — the real Push (PushBlock, PushBlockHeader, PushTxReceipt with a contract filter, "
                   "PushTxResult) runs against a scripted HTTP subscriber and in-memory stores under generated fault "
-                  "histories (bursts of blocks, blocks with/without matching transactions, 1 MB size cuts, refusals of "
+                  "histories (bursts of blocks, blocks with/without matching transactions, 1 MB size cuts, single blocks "
+                  "above 1 MB, the exact-fit and oversize regression histories, refusals of "
                   "three kinds, immediate and late re-registration, restarts, failing writes of the last-pushed key, "
                   "crashes frozen between ack and record), every visible event is logged in order and must be accepted by "
                   "the compiled specification (strict for histories without injected store faults); the predicate is "
@@ -41,8 +51,10 @@ class C32(Spec):
     level_note = ("PushEVMEvent is not driven (getEVMEvent has the same loop as getTxReceipts); the data source is "
                   "abstract (a pass covers last+1..last+n; which sequences hold matching data is an oracle input, the "
                   "harness checks the payloads against the blocks); timers (1 s retry sleeps), HTTP and goroutine "
-                  "scheduling are runtime — liveness is not claimed in Lean; the stall on an oversize first block is an "
-                  "event the specification tolerates and is reported by the harness predicate (finding). DECLARED, not a "
+                  "scheduling are runtime — liveness in Lean is the one-step statement oversize_first_block_is_posted / "
+                  "new_size_rule_never_stalls (runTask itself would still spin on an answer (nil, startSeq-1); the batch "
+                  "loop no longer gives it; the specification tolerates the .stalled event, the harness predicate "
+                  "reports any pass repeated three times without a post). DECLARED, not a "
                   "finding: an acknowledged range is delivered again after a crash or an ignored setLastPushSeq error "
                   "between ack and record — at-least-once delivery across that window; crashes and store errors are not "
                   "in the property's fault list, and no implementation without a two-phase handshake can avoid it "
@@ -51,8 +63,10 @@ class C32(Spec):
                   "not-active status after the third failure also ignores its error (not modelled). For filter posts the "
                   "end of the covered range is observable only through the record / the next pass; the harness takes it "
                   "from there and checks it against the blocks read. Found and fixed in /repo earlier: a second task "
-                  "goroutine on quick re-registration (fix e771544). Open findings: findings.d/C32.json (two defects of "
-                  "the size-limit handling in getTxReceipts/getEVMEvent).")
+                  "goroutine on quick re-registration (fix e771544); two defects of the size-limit handling in "
+                  "getTxReceipts/getEVMEvent — a matching block dropped when the batch size equals pushMaxSize, a stall "
+                  "on a first block above pushMaxSize (fix 87f57a6; both predicates stay strict, the histories are "
+                  "replayed as w-exact-fit / w-oversize).")
     assumptions = ("one registration request at a time per subscriber name (concurrent registrations are outside the quantifier)",
                    "the sequence log is append-only: whether a sequence holds matching data does not change")
     quick_timeout = 900
